@@ -58,3 +58,102 @@ VARIANTS += [
  dict(name='locals-set-delta-from-base', file=C, expect='flagged(pairing/set)', find=SET_OLD, replace=set_locals(delta='bundle.BaseCRL.Raw')),
  dict(name='locals-set-swapped-in-literal', file=C, expect='flagged(pairing/set)', find=SET_OLD, replace=set_locals(lit='BaseCRL: deltaRaw, DeltaCRL: bundle.BaseCRL.Raw')),
 ]
+
+# ---- Get split into helpers: decode + parse in one function, both expiry checks in another (the bundle travels as a pointer)
+DEC_OLD = '\tvar content fileCacheContent\n\tif err := json.Unmarshal(contentBytes, &content); err != nil {\n\t\treturn nil, fmt.Errorf("failed to decode file retrieved from file cache: %w", err)\n\t}\n'
+BASE_CHK = '\tif err := checkExpiry(ctx, bundle.BaseCRL.NextUpdate); err != nil {\n\t\treturn fmt.Errorf("check BaseCRL expiry failed: %w", err)\n\t}\n'
+DELTA_CHK = '\tif bundle.DeltaCRL != nil {\n\t\tif err := checkExpiry(ctx, bundle.DeltaCRL.NextUpdate); err != nil {\n\t\t\treturn fmt.Errorf("check DeltaCRL expiry failed: %w", err)\n\t\t}\n\t}\n'
+DELTA_ERR = '\t\tif err != nil {\n\t\t\treturn nil, fmt.Errorf("failed to parse delta CRL of file retrieved from file cache: %w", err)\n\t\t}\n'
+def get_helpers(expiry_call='\tif err := checkBundleExpiry(ctx, bundle); err != nil {\n\t\treturn nil, err\n\t}\n', ret='bundle',
+                decode='\tif err := json.Unmarshal(contentBytes, &content); err != nil {\n\t\treturn nil, fmt.Errorf("failed to decode file retrieved from file cache: %w", err)\n\t}\n',
+                delta_arg='content.DeltaCRL', delta_err=DELTA_ERR, base_chk=BASE_CHK, delta_chk=DELTA_CHK, last='\treturn nil\n'):
+    return ('\tbundle, err := decodeBundle(contentBytes)\n\tif err != nil {\n\t\treturn nil, err\n\t}\n' + expiry_call + '\treturn ' + ret + ', nil\n}\n\n'
+            + '// decodeBundle decodes the content of a cache file to a crl Bundle\nfunc decodeBundle(contentBytes []byte) (*corecrl.Bundle, error) {\n\tvar content fileCacheContent\n' + decode
+            + '\tvar bundle corecrl.Bundle\n\tvar err error\n\tbundle.BaseCRL, err = x509.ParseRevocationList(content.BaseCRL)\n\tif err != nil {\n\t\treturn nil, fmt.Errorf("failed to parse base CRL of file retrieved from file cache: %w", err)\n\t}\n'
+            + '\tif content.DeltaCRL != nil {\n\t\tbundle.DeltaCRL, err = x509.ParseRevocationList(' + delta_arg + ')\n' + delta_err + '\t}\n\treturn &bundle, nil\n}\n\n'
+            + '// checkBundleExpiry returns nil when neither CRL of bundle has expired\nfunc checkBundleExpiry(ctx context.Context, bundle *corecrl.Bundle) error {\n' + base_chk + delta_chk + last)
+GET_TAIL_OLD = DEC_OLD + GET_OLD
+VARIANTS += [
+ dict(name='benign-get-helpers', file=C, expect='silent', find=GET_TAIL_OLD, replace=get_helpers(),
+      why='each gate is decided where it lives; a success of Get contains a complete successful run of each helper'),
+ dict(name='benign-get-helpers-delta-check-in-tail-call', file=C, expect='silent', find=GET_TAIL_OLD,
+      replace=get_helpers(delta_chk='\tif bundle.DeltaCRL == nil {\n\t\treturn nil\n\t}\n', last='\treturn checkExpiry(ctx, bundle.DeltaCRL.NextUpdate)\n'),
+      why='the exit that forwards the delta check reports success only if that check succeeded'),
+ dict(name='helpers-tail-call-checks-base-again', file=C, expect='flagged(get/delta-expiry)', find=GET_TAIL_OLD,
+      replace=get_helpers(delta_chk='\tif bundle.DeltaCRL == nil {\n\t\treturn nil\n\t}\n', last='\treturn checkExpiry(ctx, bundle.BaseCRL.NextUpdate)\n')),
+ dict(name='helpers-delta-expiry-dropped', file=C, expect='flagged(get/delta-expiry)', find=GET_TAIL_OLD, replace=get_helpers(delta_chk='')),
+ dict(name='helpers-delta-expiry-only-for-short-base', file=C, expect='flagged(get/delta-expiry)', find=GET_TAIL_OLD,
+      replace=get_helpers(delta_chk=DELTA_CHK.replace('bundle.DeltaCRL != nil {', 'bundle.DeltaCRL != nil && len(bundle.BaseCRL.Raw) < 4096 {'))),
+ dict(name='helpers-base-expiry-dropped', file=C, expect='flagged(get/base-expiry)', find=GET_TAIL_OLD, replace=get_helpers(base_chk='')),
+ dict(name='helpers-expiry-result-ignored', file=C, expect='flagged(get/base-expiry)', find=GET_TAIL_OLD,
+      replace=get_helpers(expiry_call='\tif err := checkBundleExpiry(ctx, bundle); err != nil {\n\t\tlogger.Debugf("stale: %v", err)\n\t}\n')),
+ dict(name='helpers-expiry-of-rebuilt-bundle', file=C, expect='flagged(get/delta-expiry)', find=GET_TAIL_OLD,
+      replace=get_helpers(expiry_call='\tif err := checkBundleExpiry(ctx, &corecrl.Bundle{BaseCRL: bundle.BaseCRL}); err != nil {\n\t\treturn nil, err\n\t}\n')),
+ dict(name='helpers-delta-parse-error-ignored', file=C, expect='flagged(get/delta-parse-error)', find=GET_TAIL_OLD,
+      replace=get_helpers(delta_err='\t\tif err != nil {\n\t\t\tbundle.DeltaCRL = nil\n\t\t}\n')),
+ dict(name='helpers-delta-parsed-from-base', file=C, expect='flagged(pairing/get)', find=GET_TAIL_OLD, replace=get_helpers(delta_arg='content.BaseCRL')),
+ dict(name='helpers-decode-error-ignored', file=C, expect='flagged(get/decode-error)', find=GET_TAIL_OLD,
+      replace=get_helpers(decode='\t_ = json.Unmarshal(contentBytes, &content)\n')),
+ dict(name='helpers-returns-rebuilt-bundle', file=C, expect='flagged(get/returns-parsed-bundle)', find=GET_TAIL_OLD,
+      replace=get_helpers(ret='&corecrl.Bundle{BaseCRL: bundle.BaseCRL}')),
+]
+
+# ---- the codec as methods: content.toBundle() in Get, newFileCacheContent(bundle) in Set, the expiry helper takes the list
+EXP_OLD = 'func checkExpiry(ctx context.Context, nextUpdate time.Time) error {\n\tlogger := log.GetLogger(ctx)\n'
+EXP_NEW = 'func checkCRLExpiry(ctx context.Context, crl *x509.RevocationList) error {\n\tlogger := log.GetLogger(ctx)\n\tnextUpdate := crl.NextUpdate\n'
+SET_DOC = '// Set stores the CRL bundle in c with url as key.'
+def codec_get(recv='content', delta_list='bundle.DeltaCRL', delta_arg='content.DeltaCRL'):
+    return ('\tbundle, err := ' + recv + '.toBundle()\n\tif err != nil {\n\t\treturn nil, err\n\t}\n'
+            + '\tif err := checkCRLExpiry(ctx, bundle.BaseCRL); err != nil {\n\t\treturn nil, fmt.Errorf("check BaseCRL expiry failed: %w", err)\n\t}\n'
+            + '\tif bundle.DeltaCRL != nil {\n\t\tif err := checkCRLExpiry(ctx, ' + delta_list + '); err != nil {\n\t\t\treturn nil, fmt.Errorf("check DeltaCRL expiry failed: %w", err)\n\t\t}\n\t}\n\treturn bundle, nil\n}\n\n'
+            + '// toBundle parses the ASN.1 encoded CRLs of content\nfunc (content *fileCacheContent) toBundle() (*corecrl.Bundle, error) {\n\tvar (\n\t\tbundle corecrl.Bundle\n\t\terr    error\n\t)\n'
+            + '\tbundle.BaseCRL, err = x509.ParseRevocationList(content.BaseCRL)\n\tif err != nil {\n\t\treturn nil, fmt.Errorf("failed to parse base CRL of file retrieved from file cache: %w", err)\n\t}\n'
+            + '\tif content.DeltaCRL != nil {\n\t\tbundle.DeltaCRL, err = x509.ParseRevocationList(' + delta_arg + ')\n' + DELTA_ERR + '\t}\n\treturn &bundle, nil\n')
+def codec_ctor(delta_cond='bundle.DeltaCRL != nil', delta_val='bundle.DeltaCRL.Raw', pre_ret='', ret='content'):
+    return ('// newFileCacheContent returns the content to be saved for bundle\nfunc newFileCacheContent(bundle *corecrl.Bundle) fileCacheContent {\n'
+            + '\tcontent := fileCacheContent{\n\t\tBaseCRL: bundle.BaseCRL.Raw,\n\t}\n' + pre_ret
+            + '\tif ' + delta_cond + ' {\n\t\tcontent.DeltaCRL = ' + delta_val + '\n\t}\n\treturn ' + ret + '\n}\n\n' + SET_DOC)
+def codec(get=None, ctor=None, marshal='newFileCacheContent(bundle)', exp_new=EXP_NEW):
+    return [(C, GET_OLD, get or codec_get()), (C, SET_OLD, '\tcontentBytes, err := json.Marshal(' + marshal + ')\n'), (C, SET_DOC, ctor or codec_ctor()), (C, EXP_OLD, exp_new)]
+VARIANTS += [
+ dict(name='benign-codec-methods', expect='silent', edits=codec(),
+      why='the method parses the fields of the very entry Get decoded (its receiver at the only call); the constructor stores the Raw bytes of the bundle Set was given; the expiry helper reads NextUpdate of the list it is handed'),
+ dict(name='codec-delta-expiry-on-base-list', expect='flagged(get/delta-expiry)', edits=codec(get=codec_get(delta_list='bundle.BaseCRL'))),
+ dict(name='codec-tobundle-on-partial-entry', expect='flagged(pairing/get)', edits=codec(get=codec_get(recv='(&fileCacheContent{BaseCRL: content.BaseCRL})'))),
+ dict(name='codec-tobundle-delta-from-base', expect='flagged(pairing/get)', edits=codec(get=codec_get(delta_arg='content.BaseCRL'))),
+ dict(name='codec-zero-next-update-ok', expect='flagged(expiry/zero-next-update)',
+      edits=codec() + [(C, '\tif nextUpdate.IsZero() {\n\t\treturn errors.New("crl bundle retrieved from file cache does not contain valid NextUpdate")\n\t}\n', '')]),
+ dict(name='codec-expiry-judges-this-update', expect='flagged(get/base-expiry)', edits=codec(exp_new=EXP_NEW.replace('crl.NextUpdate', 'crl.ThisUpdate.Add(7 * 24 * time.Hour)'))),
+ dict(name='codec-ctor-delta-from-base', expect='flagged(pairing/set)', edits=codec(ctor=codec_ctor(delta_val='bundle.BaseCRL.Raw'))),
+ dict(name='codec-ctor-drops-large-delta', expect='flagged(set/delta-stored-when-present)', edits=codec(ctor=codec_ctor(delta_cond='bundle.DeltaCRL != nil && len(bundle.DeltaCRL.Raw) < 1024'))),
+ dict(name='codec-ctor-returns-stale-copy', expect='flagged(set/writes-marshalled-entry)', edits=codec(ctor=codec_ctor(pre_ret='\tsnapshot := content\n', ret='snapshot'))),
+ dict(name='codec-ctor-fed-rebuilt-bundle', expect='flagged(pairing/set)', edits=codec(marshal='newFileCacheContent(&corecrl.Bundle{BaseCRL: bundle.BaseCRL})')),
+]
+
+# ---- the objects the rules look at are not rewritten behind their back
+VARIANTS += [
+ dict(name='helpers-expiry-helper-drops-delta', file=C, expect='flagged(pairing/get)', find=GET_TAIL_OLD,
+      replace=get_helpers(last='\tbundle.DeltaCRL = nil // only the base CRL is handed out\n\treturn nil\n')),
+ dict(name='stored-delta-discarded-before-parse', file=C, expect='flagged(pairing/get)',
+      find='\tvar bundle corecrl.Bundle\n\tbundle.BaseCRL, err = x509.ParseRevocationList(content.BaseCRL)\n',
+      replace='\tif len(content.DeltaCRL) > 1<<20 {\n\t\tcontent.DeltaCRL = nil\n\t}\n\tvar bundle corecrl.Bundle\n\tbundle.BaseCRL, err = x509.ParseRevocationList(content.BaseCRL)\n'),
+ dict(name='codec-entry-patched-after-ctor', expect='flagged(pairing/set)',
+      edits=codec()[:1] + [(C, SET_OLD, '\tcontent := newFileCacheContent(bundle)\n\tif len(content.DeltaCRL) > 1<<20 {\n\t\tcontent.DeltaCRL = nil\n\t}\n\tcontentBytes, err := json.Marshal(content)\n')] + codec()[2:]),
+]
+
+# ---- the roles of the writer's parameters are read off the writer
+VARIANTS += [
+ dict(name='benign-writer-params-reordered', expect='silent',
+      edits=[('internal/file/file.go', 'func WriteFile(tempDir, path string, content []byte) (writeErr error) {', 'func WriteFile(path, tempDir string, content []byte) (writeErr error) {'),
+             (C, 'file.WriteFile(c.root, filepath.Join(c.root, c.fileName(url)), contentBytes)', 'file.WriteFile(filepath.Join(c.root, c.fileName(url)), c.root, contentBytes)')]),
+ dict(name='writer-params-reordered-call-not', file='internal/file/file.go', expect='flagged(confinement/Set)',
+      find='func WriteFile(tempDir, path string, content []byte) (writeErr error) {', replace='func WriteFile(path, tempDir string, content []byte) (writeErr error) {'),
+]
+
+VARIANTS += [
+ dict(name='benign-marshal-pointer-to-entry', file=C, expect='silent', find='\tcontentBytes, err := json.Marshal(content)\n', replace='\tcontentBytes, err := json.Marshal(&content)\n',
+      why='the encoder reads the entry when it is called, after every field was stored'),
+ dict(name='entry-marshalled-before-delta-is-stored', file=C, expect='flagged(set/writes-marshalled-entry)',
+      find='\tif bundle.DeltaCRL != nil {\n\t\tcontent.DeltaCRL = bundle.DeltaCRL.Raw\n\t}\n\tcontentBytes, err := json.Marshal(content)\n',
+      replace='\tcontentBytes, err := json.Marshal(content)\n\tif bundle.DeltaCRL != nil {\n\t\tcontent.DeltaCRL = bundle.DeltaCRL.Raw\n\t}\n'),
+]
